@@ -768,9 +768,19 @@ fn decompress_udp(
     };
     *payload_len += udp_payload_len + 8;
     *decompressed_len += udp_repr.0.header_len() + payload.len();
+    buffer[8..][..payload.len()].copy_from_slice(payload);
     let mut udp = UdpPacket::new_unchecked(&mut buffer[..payload.len() + 8]);
     udp_repr.0.emit_header(&mut udp, udp_payload_len);
-    buffer[8..][..payload.len()].copy_from_slice(payload);
+    match udp_packet.checksum() {
+        // The checksum carried inline is the checksum of the uncompressed datagram: reproduce it, so that
+        // it is verified like any other once the datagram is complete.
+        Some(checksum) => udp.set_checksum(checksum),
+        // An elided checksum has to be recomputed here (RFC 6282 section 4.3.2).
+        None if total_len.is_none() => {
+            udp.fill_checksum(&iphc_repr.src_addr.into(), &iphc_repr.dst_addr.into())
+        }
+        None => {}
+    }
     Ok(())
 }
 
